@@ -25,6 +25,7 @@ type evJ struct {
 	NoErrElem bool   `json:"noerrelem,omitempty"` // openl: error reply without an <error/> child
 	Listening bool   `json:"listening,omitempty"` // openr: addressed to the listener
 	Stanza    string `json:"stanza,omitempty"`    // openr: stanza attribute
+	BSText    string `json:"bstext,omitempty"`    // openr: malformed block-size attribute (not modelled; oracle only)
 	IQ        bool   `json:"iq,omitempty"`        // data: carrier
 	Seq       string `json:"seq,omitempty"`       // data: text of the seq attribute
 	Data      string `json:"data,omitempty"`      // data: hex of the character data
@@ -206,10 +207,33 @@ func (x *runner) runReceiver(c recvCase, origin string) bool {
 			if e.Stanza != "" {
 				st = ` stanza="` + e.Stanza + `"`
 			}
-			r.peer.send(`<iq type="set" id="` + id + `" from="` + remoteAddr + `" to="` + to + `"><open xmlns="` + ibb.NS + `" block-size="` + strconv.Itoa(e.BS) + `" sid="` + sid + `"` + st + `/></iq>`)
+			bsText := strconv.Itoa(e.BS)
+			if e.BSText != "" {
+				bsText = e.BSText
+			}
+			r.peer.send(`<iq type="set" id="` + id + `" from="` + remoteAddr + `" to="` + to + `"><open xmlns="` + ibb.NS + `" block-size="` + xmlEscape(bsText) + `" sid="` + sid + `"` + st + `/></iq>`)
 			w, ok := r.peer.replyTo(id, from, watchdog)
+			if msg, alive := r.alive(); !alive {
+				key := "C15/open/serve-aborted"
+				if e.BSText != "" {
+					key = "C15/open/malformed-attribute:serve-aborted"
+				}
+				return abort(key, fmt.Sprintf("event %d: the serve loop ends (%s) on an open request", i, msg))
+			}
 			if !ok {
 				return abort("C15/open/request-unanswered", "an open request is not answered")
+			}
+			if e.BSText != "" {
+				modelled = false
+				if w.Type == "result" {
+					fail("C15/open/malformed-attribute:accepted", fmt.Sprintf("event %d: an open request with block-size=%q is accepted", i, e.BSText))
+					select {
+					case conn := <-r.accepted:
+						conns[sid] = conn
+					case <-timeAfter(watchdog):
+					}
+				}
+				continue
 			}
 			obs := ""
 			if w.Type == "result" {
